@@ -939,6 +939,7 @@ func c18Fixed(env *core.Env, totality bool) {
 		prop = "C01"
 	}
 	defer env.In("patch", c18Case{TN: "fixed"})()
+	c18ForeignValues(env, prop)
 	p := func() fhir.Resource { return gen.StdPatient() }
 	hn := &dtpb.HumanName{Family: &dtpb.String{Value: "New"}}
 	type fc struct {
@@ -1374,6 +1375,62 @@ func c18OptionsAndRanges(env *core.Env) {
 					env.Violatef("C18/integer-range/wrong-value-stored", "patch.%s maxLength := %T(%d) returned nil; the element now holds %v", op, val, v, got)
 				}
 			}
+		}
+	}
+}
+
+// c18ForeignValues: values whose message name is an R4 name but whose type is not (another FHIR version), offered to
+// targets held in a ContainedResource (Bundle entries, Parameters) or in value[x]: refused, nothing changed, no crash.
+func c18ForeignValues(env *core.Env, prop string) {
+	mkBundle := func() *bcrpb.Bundle {
+		return &bcrpb.Bundle{Entry: []*bcrpb.Bundle_Entry{
+			{Resource: &bcrpb.ContainedResource{OneofResource: &bcrpb.ContainedResource_Patient{Patient: &ppb.Patient{Id: &dtpb.Id{Value: "p1"}}}}},
+			{FullUrl: &dtpb.Uri{Value: "urn:x"}},
+		}}
+	}
+	mkPatient := func() *ppb.Patient {
+		return &ppb.Patient{Id: &dtpb.Id{Value: "p"}, Extension: []*dtpb.Extension{{Url: &dtpb.Uri{Value: "http://u/empty"}}, {Url: &dtpb.Uri{Value: "http://u/full"}, Value: &dtpb.Extension_ValueX{Choice: &dtpb.Extension_ValueX_StringValue{StringValue: &dtpb.String{Value: "s"}}}}}}
+	}
+	type fc struct {
+		name string
+		mk   func() fhir.Resource
+		f    func(r fhir.Resource) error
+	}
+	foreign := []fhir.Base{&s3res.Patient{}, &s3res.Observation{}, &s3dt.String{Value: "x"}, &s3dt.Quantity{}, &s3dt.HumanName{}, &s3dt.Boolean{Value: true}}
+	var cases []fc
+	for _, v := range foreign {
+		v := v
+		tn := string(v.ProtoReflect().Descriptor().FullName())
+		cases = append(cases,
+			fc{"Replace(Bundle.entry[0].resource, " + tn + ")", func() fhir.Resource { return mkBundle() }, func(r fhir.Resource) error { return patch.Replace(r, "Bundle.entry[0].resource", v) }},
+			fc{"Add(Bundle.entry[1], resource, " + tn + ")", func() fhir.Resource { return mkBundle() }, func(r fhir.Resource) error { return patch.Add(r, "Bundle.entry[1]", "resource", v, &patch.Options{}) }},
+			fc{"Add(Patient.extension[0], value, " + tn + ")", func() fhir.Resource { return mkPatient() }, func(r fhir.Resource) error { return patch.Add(r, "Patient.extension[0]", "value", v, &patch.Options{}) }},
+			fc{"Replace(Patient.extension[1].value, " + tn + ")", func() fhir.Resource { return mkPatient() }, func(r fhir.Resource) error { return patch.Replace(r, "Patient.extension[1].value", v) }},
+			fc{"Add(Patient, contained, " + tn + ")", func() fhir.Resource { return mkPatient() }, func(r fhir.Resource) error { return patch.Add(r, "Patient", "contained", v, &patch.Options{}) }},
+			fc{"Insert(Bundle.entry, " + tn + ")", func() fhir.Resource { return mkBundle() }, func(r fhir.Resource) error { return patch.Insert(r, "Bundle.entry", v, 0) }},
+		)
+	}
+	for _, c := range cases {
+		r := c.mk()
+		before := protoBytes(r)
+		var perr error
+		out := env.Guard("patch."+c.name, func() { perr = c.f(r) })
+		env.Eval(1)
+		env.Case()
+		env.Cover("foreign-version-value")
+		if out.Panicked || out.Dead {
+			if !out.Dead {
+				env.Violatef(prop+"/panic@"+out.Site+"/"+core.NormMsg(out.PanicMsg), "patch.%s panicked: %s", c.name, out.PanicMsg)
+			}
+			continue
+		}
+		if prop != "C18" {
+			continue
+		}
+		if perr == nil {
+			env.Violatef("C18/fixed/succeeded-on-invalid-operation", "patch.%s returned nil", c.name)
+		} else if protoBytes(r) != before {
+			env.Violatef("C18/fixed/mutated", "patch.%s returned %v but the resource changed", c.name, perr)
 		}
 	}
 }
